@@ -138,8 +138,71 @@ fn conv_mode(prop: &str, seed: u64, vectors: &[String]) {
     println!("ok conv {}", prop);
 }
 
+/// `lazymiri conc <seed> <threads>`: caller threads inside the batch conversions, sums and the multiscalar
+/// multiplication at the same time (C06: whatever these hand out must be valid and must be the callers' own
+/// elements). None of this touches the lazily built square-root tables, so it is quick under Miri, whose
+/// seeded preemptive scheduler decides the interleaving and whose detector reports data races.
+fn conc_mode(seed: u64, threads: usize) {
+    use ark_ec::{CurveGroup, ScalarMul};
+    use decaf377::{Element, Fr};
+    let mut handles = Vec::new();
+    for t in 0..threads {
+        handles.push(std::thread::spawn(move || {
+            let mut s = seed ^ ((t as u64 + 1) << 40);
+            // elements with Z != 1: sums of the generator
+            let n = 3 + (splitmix(&mut s) % 4) as usize;
+            let mut v = Vec::new();
+            let mut acc = Element::GENERATOR;
+            for i in 0..n {
+                for _ in 0..(1 + (t + i) % 3) {
+                    acc = acc + Element::GENERATOR;
+                }
+                v.push(if i % 3 == 2 { Element::IDENTITY } else { acc });
+            }
+            let single: Vec<_> = v.iter().map(|e| e.into_affine()).collect();
+            for round in 0..3 {
+                let a = Element::normalize_batch(&v);
+                let b = Element::batch_convert_to_mul_base(&v);
+                assert!(a.len() == v.len() && b.len() == v.len(), "INVARIANT C06_batch_length");
+                for i in 0..v.len() {
+                    assert!(a[i] == single[i], "INVARIANT C06_normalize_batch_under_concurrency");
+                    assert!(b[i] == single[i], "INVARIANT C06_batch_convert_under_concurrency");
+                    assert!(Element::from(a[i]) == v[i], "INVARIANT C06_batch_element_changed");
+                }
+                let sum: Element = single.iter().sum();
+                let mut want = Element::IDENTITY;
+                for e in &v {
+                    want = want + *e;
+                }
+                assert!(sum == want, "INVARIANT C06_sum_under_concurrency");
+                if round == 0 {
+                    let ks: Vec<Fr> = (0..v.len()).map(|i| Fr::from(16u64 * (i as u64 + 1))).collect();
+                    let m = Element::vartime_multiscalar_mul(ks.iter(), v.iter());
+                    let mut w = Element::IDENTITY;
+                    for (k, e) in ks.iter().zip(v.iter()) {
+                        w = w + *e * *k;
+                    }
+                    assert!(m == w, "INVARIANT C06_multiscalar_under_concurrency");
+                }
+            }
+            v.len()
+        }));
+    }
+    let mut total = 0;
+    for h in handles {
+        total += h.join().expect("INVARIANT thread_panicked");
+    }
+    println!("ok conc {} elements", total);
+}
+
 fn main() {
     let args: Vec<String> = std::env::args().collect();
+    if args.get(1).map(|s| s.as_str()) == Some("conc") {
+        let seed: u64 = args.get(2).and_then(|s| s.parse().ok()).unwrap_or(1);
+        let threads: usize = args.get(3).and_then(|s| s.parse().ok()).unwrap_or(3);
+        conc_mode(seed, threads);
+        return;
+    }
     if args.get(1).map(|s| s.as_str()) == Some("conv") {
         let prop = args.get(2).cloned().unwrap_or_default();
         let seed: u64 = args.get(3).and_then(|s| s.parse().ok()).unwrap_or(1);
